@@ -1026,3 +1026,53 @@ package hashgraph
 //@   modifies common.G_m(s.frameCache)
 //@   ghostset G_frames(s) := __upd(G_frames(s), frame.Round, frame) when ret0 == nil
 //@   ensures[coupled] s.coupled()
+
+// ------------------------------------------------------------------------------------------------
+// ParticipantEventsCache (C16): per-participant event listings. A participant is looked up by the upper-cased key
+// in the cache's peer set; every operation is then the RollingIndexMap operation on that peer's ID.
+//@ ghost func PID(p *peers.Peer) uint32 { return keys.KeyID(common.KeyBytesOf(p.PubKeyHex)) }
+//@ ghost func (pec *ParticipantEventsCache) wf() bool { return pec.participants != nil && pec.participants.WF() && pec.rim != nil && pec.rim.WF() && (forall p string :: __in(p, pec.participants.ByPubKey) ==> pec.rim.Has(PID(pec.participants.ByPubKey[p]))) }
+//@ ghost func (pec *ParticipantEventsCache) known(participant string) bool { return __in(common.Upper(participant), pec.participants.ByPubKey) }
+//@ ghost func (pec *ParticipantEventsCache) idx(participant string) *common.RollingIndex { return pec.rim.At(PID(pec.participants.ByPubKey[common.Upper(participant)])) }
+
+//@ func (pec *ParticipantEventsCache) participantID(participant string) (uint32, error)
+//@   requires pec != nil && pec.wf()
+//@   modifies nothing
+//@   ensures[known]   pec.known(participant) ==> ret1 == nil && ret0 == PID(pec.participants.ByPubKey[common.Upper(participant)]) && pec.rim.Has(ret0)
+//@   ensures[unknown] !pec.known(participant) ==> common.IsStore(ret1, common.UnknownParticipant)
+
+//@ func (pec *ParticipantEventsCache) Set(participant string, hash string, index int) error
+//@   ints checked
+//@   requires pec != nil && pec.wf() && index >= 0 && index < 4611686018427387904
+//@   modifies any common.RollingIndex.items, any common.RollingIndex.lastIndex
+//@   ensures[wf]      pec.wf()
+//@   ensures[unknown] !pec.known(participant) ==> common.IsStore(ret0, common.UnknownParticipant)
+//@   ensures[skip]    pec.known(participant) && old(pec.idx(participant).Last()) >= 0 && index > old(pec.idx(participant).Last())+1 ==> common.IsStore(ret0, common.SkippedIndex) && pec.idx(participant).Last() == old(pec.idx(participant).Last())
+//@   ensures[append]  pec.known(participant) && (old(pec.idx(participant).Last()) < 0 || index == old(pec.idx(participant).Last())+1) ==> ret0 == nil && pec.idx(participant).Last() == index && len(pec.idx(participant).Items()) >= 1 && pec.idx(participant).Items()[len(pec.idx(participant).Items())-1] == interface{}(hash)
+//@   ensures[toolate] pec.known(participant) && 0 <= old(pec.idx(participant).Last()) && index < old(pec.idx(participant).Oldest()) ==> common.IsStore(ret0, common.TooLate) && pec.idx(participant).Last() == old(pec.idx(participant).Last())
+
+//@ func (pec *ParticipantEventsCache) GetLast(participant string) (string, error)
+//@   requires pec != nil && pec.wf()
+//@   modifies nothing
+//@   ensures[unknown] !pec.known(participant) ==> common.IsStore(ret1, common.UnknownParticipant)
+//@   ensures[empty]   pec.known(participant) && len(pec.idx(participant).Items()) == 0 ==> common.IsStore(ret1, common.Empty)
+//@   ensures[last]    pec.known(participant) && len(pec.idx(participant).Items()) > 0 ==> ret1 == nil && interface{}(ret0) == pec.idx(participant).Items()[len(pec.idx(participant).Items())-1]
+
+//@ func (pec *ParticipantEventsCache) GetItem(participant string, index int) (string, error)
+//@   ints checked
+//@   requires pec != nil && pec.wf()
+//@   modifies nothing
+//@   ensures[unknown]  !pec.known(participant) ==> common.IsStore(ret1, common.UnknownParticipant)
+//@   ensures[toolate]  pec.known(participant) && index < pec.idx(participant).Oldest() ==> common.IsStore(ret1, common.TooLate)
+//@   ensures[notfound] pec.known(participant) && index > pec.idx(participant).Last() ==> common.IsStore(ret1, common.KeyNotFound)
+//@   ensures[hit]      pec.known(participant) && pec.idx(participant).Oldest() <= index && index <= pec.idx(participant).Last() ==> ret1 == nil && interface{}(ret0) == pec.idx(participant).Items()[index-pec.idx(participant).Oldest()]
+
+//@ func (pec *ParticipantEventsCache) Get(participant string, skipIndex int) ([]string, error)
+//@   ints checked
+//@   requires pec != nil && pec.wf()
+//@   modifies nothing
+//@   ensures[unknown] !pec.known(participant) ==> common.IsStore(ret1, common.UnknownParticipant)
+//@   ensures[toolate] pec.known(participant) && skipIndex <= pec.idx(participant).Last() && skipIndex+1 < pec.idx(participant).Oldest() ==> common.IsStore(ret1, common.TooLate)
+//@   ensures[suffix]  pec.known(participant) && skipIndex <= pec.idx(participant).Last() && skipIndex+1 >= pec.idx(participant).Oldest() ==> ret1 == nil && len(ret0) == pec.idx(participant).Last() - skipIndex && (forall k int :: 0 <= k && k < len(ret0) ==> interface{}(ret0[k]) == pec.idx(participant).Items()[skipIndex+1+k-pec.idx(participant).Oldest()])
+//@   ensures[ahead]   pec.known(participant) && skipIndex > pec.idx(participant).Last() ==> ret1 == nil && len(ret0) == 0
+//@   loop 1 invariant[copy] 0 <= k && k <= len(pe) && len(res) == len(pe) && (forall j int :: 0 <= j && j < k ==> interface{}(res[j]) == pe[j])
